@@ -906,9 +906,41 @@ class _Gen:
             return ["list", [lst, dct]]
         return ["f", "list", lst, [], []]
 
+    def number_default(self, lex):
+        """An output whose OUTERMOST filter is a "number" filter that hands a data-controlled string through unchanged:
+        int / float return their default for an unconvertible value, sum returns its start for an empty sequence."""
+        k = self.pick(("int", "float", "int", "float", "sum"))
+        d = self.lo_s(lex, 0) if self.chance(2, 3) else self.lo_s(lex, 1)
+        if k == "sum":
+            return ["f", "sum", ["list", []], [], [["start", d]]]
+        value = ["v", self.pick(lex.lo)] if self.chance(3, 4) else self.pick((["none"], ["v", "nope"], ["s", "1e"], ["v", "l0"]))
+        if self.chance(1, 2):
+            return ["f", k, value, [d], []]
+        return ["f", k, value, [], [["default", d]]]
+
+    def format_fragment(self, lex):
+        """[set block holding metacharacter-free text with replacement fields, fragment.format(data)]: Markup.format /
+        format_map are documented to stay markup and to escape their arguments, so this is escaping-neutral (also in
+        neutral mode, where fragments otherwise only reach content-preserving sinks)."""
+        name = self.pick(("r0", "r1"))
+        if name not in lex.hi:
+            lex.hi.append(name)
+        if self.chance(1, 3):
+            body = [["text", self.pick(("[{id}]", "({id}:{id})", "{title}/"))]]
+            e = ["m", "format_map", ["v", name], [["v", "d0"]]]
+        else:
+            fmt, n = self.pick((("[{}]", 1), ("({0}:{0})", 1), ("{}-{}", 2), ("{0}|{1}|{0}", 2), ("{a}.", 0)))
+            body = [["text", fmt]]
+            e = ["m", "format", ["v", name], [self.lo_s(lex, 1) for _ in range(n)]]
+            if n == 0:
+                e = ["call", ["attr", ["v", name], "format"], [], [["a", self.lo_s(lex, 1)]]]
+        return [["setblock", name, [], body], ["out", e]]
+
     def out(self, lex):
         if self.chance(1, 12):
             return ["out", self.const_container()]
+        if self.chance(1, 12):
+            return ["out", self.number_default(lex)]
         if self.neutral and lex.libs and self.chance(1, 8):
             # a module object is only ever printed directly (TemplateModule.__html__); `lib ~ x`, `x + lib`, join with a
             # module and lib|string turn it into a plain string first (finding N4 of c16.py)
@@ -928,7 +960,7 @@ class _Gen:
             if out and out[-1][0] in MARKUP_DROPPERS and not neutral_only:
                 # after a filter that returns a plain string for a safe one, an argument-inserting filter would emit its
                 # arguments raw (N1): only argument-free filters may follow
-                out.append([self.pick(("upper", "lower", "capitalize", "trim", "string", "e", "forceescape", "reverse")), [], []])
+                out.append([self.pick(("upper", "lower", "capitalize", "trim", "string", "e", "forceescape")), [], []])
                 continue
             if neutral_only:
                 name = self.pick(NEUTRAL_BLOCK_FILTERS + ("default",))
@@ -1006,7 +1038,7 @@ class _Gen:
                 c.hi.append("g0")
             return [["with", binds, self.block(c, 1, 3)]]
         if k == "setblock":
-            return self.setblock(lex)
+            return self.format_fragment(lex) if self.chance(1, 5) else self.setblock(lex)
         if k == "filter":
             neutral_only = self.neutral or (lex.emit_hi and self.chance(1, 4))
             ch = self.chain(lex, neutral_only)
